@@ -82,6 +82,8 @@ func main() {
 	switch os.Args[1] {
 	case "check":
 		os.Exit(check(os.Args[2:]))
+	case "thorough":
+		os.Exit(check(append([]string{"-tier", "thorough"}, os.Args[2:]...)))
 	case "own":
 		fs := flag.NewFlagSet("own", flag.ExitOnError)
 		repo := fs.String("repo", "/repo", "repository root")
